@@ -1,4 +1,4 @@
-CONSTANT LoopTargetsSupported = FALSE
+CONSTANTS LoopTargetsSupported = FALSE  WithRewritten = FALSE
 INIT InitX
 NEXT Next
 CONSTRAINT Collect
